@@ -328,28 +328,24 @@ func (s *TxStore) insertMinedTxForImporting(tx mwdb.DBTransaction,
 		return err
 	}
 
-	// double check
+	// A reorganisation while the wallet was importing moves its confirmed transactions to
+	// the unmined set (Rollback). Once the rescan sees the transaction mined again it
+	// supersedes the unmined record, and unmined transactions spending the same outputs
+	// are conflicts - exactly as in insertMinedTx.
 	nsUnmined := tx.FetchBucket(s.bucketMeta.nsUnmined)
 	v, err = existsRawUnmined(nsUnmined, rec.Hash[:])
 	if err != nil {
-		logging.VPrint(logging.ERROR, "read unmined error",
-			logging.LogFormat{
-				"err":       err,
-				"tx":        rec.Hash.String(),
-				"block":     block.Height,
-				"blockHash": block.Hash.String(),
-			})
-		return nil
+		return err
 	}
 	if v != nil {
-		logging.VPrint(logging.ERROR, "unexpected error: unmined tx exists",
-			logging.LogFormat{
-				"tx":        rec.Hash.String(),
-				"block":     block.Height,
-				"blockHash": block.Hash.String(),
-			})
+		if err := s.utxoStore.deleteUnminedCredits(tx, rec); err != nil {
+			return err
+		}
+		if err := deleteRawUnmined(nsUnmined, rec.Hash[:]); err != nil {
+			return err
+		}
 	}
-	return nil
+	return s.removeDoubleSpends(tx, rec)
 }
 
 func (s *TxStore) removeDoubleSpends(tx mwdb.DBTransaction, rec *TxRecord) error {
